@@ -577,6 +577,25 @@ func (g *CallGraph) analyse(f *ssa.Function) bool {
 			}
 			sc := cc.StaticCallee()
 			if sc == nil {
+				// a value of a module-internal function type: one of the module's own functions of
+				// that signature whose address is taken
+				if sig, ok := cc.Value.Type().Underlying().(*types.Signature); ok {
+					if targets, ok := g.c.funcValueTargets(sig); ok {
+						all := true
+						for _, tg := range targets {
+							if g.Sum[tg] == nil {
+								all = false
+							}
+						}
+						if all {
+							for _, tg := range targets {
+								sum.Callees[tg] = true
+								g.propagate(f, sum, g.Sum[tg], callArgs(cc), nil, ci.Pos())
+							}
+							continue
+						}
+					}
+				}
 				// function value
 				sum.FuncVal = true
 				addEff("funcvalue", RootSet{Root{Kind: "unknown", Name: "funcvalue"}: true}, "call of function value "+a.Desc(cc.Value), ci.Pos(), self, "")
@@ -691,5 +710,117 @@ func (s *Summary) sortedEffects() []Effect {
 		out = append(out, e)
 	}
 	sort.Slice(out, func(i, j int) bool { return out[i].key() < out[j].key() })
+	return out
+}
+
+// ---------------------------------------------------------------------------------------------
+// function values of module-internal type
+
+// internalOnlySig: the signature mentions an unexported named type of the module, so no function
+// value of this type can be made outside the module — whatever is called through such a value is
+// one of the module's own functions whose address is taken somewhere in the module.
+func (c *Ctx) internalOnlySig(sig *types.Signature) bool {
+	var mentions func(t types.Type, depth int) bool
+	mentions = func(t types.Type, depth int) bool {
+		if depth > 4 || t == nil {
+			return false
+		}
+		switch x := t.(type) {
+		case *types.Named:
+			if x.Obj().Pkg() != nil && strings.HasPrefix(x.Obj().Pkg().Path(), modulePath) && !x.Obj().Exported() {
+				return true
+			}
+			return false
+		case *types.Pointer:
+			return mentions(x.Elem(), depth+1)
+		case *types.Slice:
+			return mentions(x.Elem(), depth+1)
+		case *types.Map:
+			return mentions(x.Key(), depth+1) || mentions(x.Elem(), depth+1)
+		}
+		return false
+	}
+	for i := 0; i < sig.Params().Len(); i++ {
+		if mentions(sig.Params().At(i).Type(), 0) {
+			return true
+		}
+	}
+	for i := 0; i < sig.Results().Len(); i++ {
+		if mentions(sig.Results().At(i).Type(), 0) {
+			return true
+		}
+	}
+	return false
+}
+
+// addrTaken: module functions used as values (not in call position), with the functions that do so.
+func (c *Ctx) addrTaken() map[*ssa.Function][]*ssa.Function {
+	if v, ok := c.extra("addrTaken"); ok {
+		return v.(map[*ssa.Function][]*ssa.Function)
+	}
+	out := map[*ssa.Function][]*ssa.Function{}
+	for _, pkg := range []*ssa.Package{c.Jen} {
+		for _, g := range c.allFuncs(pkg) {
+			for _, b := range g.Blocks {
+				for _, in := range b.Instrs {
+					var callee ssa.Value
+					if ci, ok := in.(ssa.CallInstruction); ok && !ci.Common().IsInvoke() {
+						callee = ci.Common().Value
+					}
+					for _, op := range in.Operands(nil) {
+						if op == nil || *op == nil {
+							continue
+						}
+						if fn, ok := (*op).(*ssa.Function); ok && fn != callee && c.inModule(fn) && fn.Blocks != nil {
+							out[fn] = append(out[fn], g)
+						}
+					}
+				}
+			}
+		}
+	}
+	c.setExtra("addrTaken", out)
+	return out
+}
+
+// funcValueTargets: the module functions a call through a value of signature sig can reach, if the
+// signature is module-internal and at least one function of that signature has its address taken.
+func (c *Ctx) funcValueTargets(sig *types.Signature) ([]*ssa.Function, bool) {
+	if sig == nil || !c.internalOnlySig(sig) {
+		return nil, false
+	}
+	var out []*ssa.Function
+	for fn := range c.addrTaken() {
+		if types.Identical(fn.Signature, sig) || (fn.Signature.Recv() == nil && types.IdenticalIgnoreTags(fn.Signature, sig)) {
+			out = append(out, fn)
+		}
+	}
+	sort.Slice(out, func(i, j int) bool { return fname(out[i]) < fname(out[j]) })
+	return out, len(out) > 0
+}
+
+// staticCallersOf: functions that call f statically or, for functions of module-internal type,
+// take its address (whoever can obtain the value may call it).
+func (c *Ctx) callersIncludingValueUses(f *ssa.Function) []*ssa.Function {
+	var out []*ssa.Function
+	seen := map[*ssa.Function]bool{}
+	for _, g := range c.allFuncs(c.Jen) {
+		for _, b := range g.Blocks {
+			for _, in := range b.Instrs {
+				if ci, ok := in.(ssa.CallInstruction); ok && ci.Common().StaticCallee() == f && !seen[g] {
+					seen[g] = true
+					out = append(out, g)
+				}
+			}
+		}
+	}
+	if c.internalOnlySig(f.Signature) {
+		for _, g := range c.addrTaken()[f] {
+			if !seen[g] {
+				seen[g] = true
+				out = append(out, g)
+			}
+		}
+	}
 	return out
 }
